@@ -13,14 +13,15 @@ type Map = sync.Map
 
 // Mutex replaces sync.Mutex.
 type Mutex struct {
-	real sync.Mutex
-	st   objState
-	held bool
+	real  sync.Mutex
+	st    objState
+	held  bool
+	owner *thread
 }
 
 func (m *Mutex) sync(s *sched) *objState {
 	if m.st.ep != epoch {
-		m.held = false
+		m.held, m.owner = false, nil
 	}
 	return s.touch(&m.st)
 }
@@ -38,6 +39,10 @@ func (m *Mutex) Lock() {
 	o := m.sync(s)
 	s.point("mutex.Lock", o, func() bool { return !m.held })
 	m.held = true
+	m.owner = s.cur
+	if s.cur != nil {
+		s.cur.xl++
+	}
 }
 
 // Unlock releases the mutex (not a scheduling point).
@@ -55,19 +60,27 @@ func (m *Mutex) Unlock() {
 		panic("sync: unlock of unlocked mutex")
 	}
 	m.held = false
+	if m.owner != nil && m.owner.xl > 0 {
+		m.owner.xl--
+	}
+	m.owner = nil
+	if s.cfg.UnlockPoints {
+		s.point("mutex.Unlock", &m.st, nil)
+	}
 }
 
 // RWMutex replaces sync.RWMutex.
 type RWMutex struct {
-	real sync.RWMutex
-	st   objState
-	w    bool
-	r    int
+	real  sync.RWMutex
+	st    objState
+	w     bool
+	r     int
+	owner *thread
 }
 
 func (m *RWMutex) sync(s *sched) *objState {
 	if m.st.ep != epoch {
-		m.w, m.r = false, 0
+		m.w, m.r, m.owner = false, 0, nil
 	}
 	return s.touch(&m.st)
 }
@@ -84,6 +97,10 @@ func (m *RWMutex) Lock() {
 	o := m.sync(s)
 	s.point("rwmutex.Lock", o, func() bool { return !m.w && m.r == 0 })
 	m.w = true
+	m.owner = s.cur
+	if s.cur != nil {
+		s.cur.xl++
+	}
 }
 
 func (m *RWMutex) Unlock() {
@@ -100,6 +117,13 @@ func (m *RWMutex) Unlock() {
 		panic("sync: Unlock of unlocked RWMutex")
 	}
 	m.w = false
+	if m.owner != nil && m.owner.xl > 0 {
+		m.owner.xl--
+	}
+	m.owner = nil
+	if s.cfg.UnlockPoints {
+		s.point("rwmutex.Unlock", &m.st, nil)
+	}
 }
 
 func (m *RWMutex) RLock() {
@@ -114,6 +138,9 @@ func (m *RWMutex) RLock() {
 	o := m.sync(s)
 	s.point("rwmutex.RLock", o, func() bool { return !m.w })
 	m.r++
+	if s.cur != nil {
+		s.cur.rl++
+	}
 }
 
 func (m *RWMutex) RUnlock() {
@@ -130,6 +157,9 @@ func (m *RWMutex) RUnlock() {
 		panic("sync: RUnlock of unlocked RWMutex")
 	}
 	m.r--
+	if s.cur != nil && s.cur.rl > 0 {
+		s.cur.rl--
+	}
 }
 
 // RLocker returns a Locker for the read side.
